@@ -55,7 +55,10 @@ pub fn exec(rec: &Value, _st: &mut State) -> Value {
         }
         "uv" => {
             // planar lattice disk posed by T; its uv map is the lattice (x, y) itself
-            let uvv: Vec<Point2> = verts.iter().map(|p| Point2::new(p.x, p.y)).collect();
+            // `uvflip`: the map is stored with v pointing down, (x, -y) - every uv triangle is then clockwise; the
+            // observations are reported with v turned back so that the judge sees the same relation
+            let fl = if gi_or(rec, "uvflip", 0) == 1 { -1.0 } else { 1.0 };
+            let uvv: Vec<Point2> = verts.iter().map(|p| Point2::new(p.x, fl * p.y)).collect();
             let map = match UvMapping::new(uvv.clone(), faces.clone()) { Ok(m) => m, Err(_) => return json!({"ok": false}) };
             let moved: Vec<Point3> = verts.iter().map(|p| t * p).collect();
             let mesh = Mesh::new_with_uv(moved.clone(), faces.clone(), false, Some(map));
@@ -73,13 +76,13 @@ pub fn exec(rec: &Value, _st: &mut State) -> Value {
                         Some(sp) => {
                             let b = match mesh.uv_with_tol(&sp.point, 0.5, std::f64::consts::FRAC_PI_4, None) {
                                 None => json!({"some": false, "uv": [0,0], "depth": 0}),
-                                Some((u, d)) => json!({"some": true, "uv": [q.q(u.x, QU), q.q(u.y, QU)], "depth": q.q(d, QU)}),
+                                Some((u, d)) => json!({"some": true, "uv": [q.q(u.x, QU), q.q(fl * u.y, QU)], "depth": q.q(d, QU)}),
                             };
                             // the same point given in the lattice frame together with the pose as `transform`
                             let pl = t.inverse() * sp.point;
                             let bt = match mesh.uv_with_tol(&pl, 0.5, std::f64::consts::FRAC_PI_4, Some(&t)) {
                                 None => json!({"some": false, "uv": [0,0], "depth": 0}),
-                                Some((u, d)) => json!({"some": true, "uv": [q.q(u.x, QU), q.q(u.y, QU)], "depth": q.q(d, QU)}),
+                                Some((u, d)) => json!({"some": true, "uv": [q.q(u.x, QU), q.q(fl * u.y, QU)], "depth": q.q(d, QU)}),
                             };
                             back_t = bt;
                             (json!({"some": true, "p": [q.q(sp.point.x, QX), q.q(sp.point.y, QX), q.q(sp.point.z, QX)],
@@ -87,7 +90,7 @@ pub fn exec(rec: &Value, _st: &mut State) -> Value {
                         }
                     };
                     // a point lifted off the surface along the normal by 1/4: still maps back to the same uv with that depth
-                    probes.push(json!({"face": k, "bc": bc, "uv6": [ (uv.x * 6.0).round() as i64, (uv.y * 6.0).round() as i64 ], "to3": to3, "back": back, "back_t": back_t}));
+                    probes.push(json!({"face": k, "bc": bc, "uv6": [ (uv.x * 6.0).round() as i64, (fl * uv.y * 6.0).round() as i64 ], "to3": to3, "back": back, "back_t": back_t}));
                 }
             }
             json!({"ok": true, "probes": probes, "finite": q.finite})
